@@ -97,6 +97,23 @@ class Run:
     # ---- accounting
     def ev(self, n=1):
         self.evaluations += int(n)
+        self._perturb_environment()
+
+    def _perturb_environment(self):
+        """Called before every evaluation: leave numba with some other number of threads in force, as an earlier, unrelated call
+        of the package would (several entry points set the count and never restore it).  No property allows a result to depend
+        on it: routines with an `nthread` argument set their own count, the others are deterministic functions of their inputs."""
+        nb = sys.modules.get('numba')
+        if nb is None or os.environ.get('VERIF_NO_PERTURB'):
+            return
+        self._nperturb = getattr(self, '_nperturb', 0) + 1
+        try:
+            mx = int(nb.config.NUMBA_NUM_THREADS)
+            k = 1 + (self._nperturb * 7 + self.seed * 3) % mx if self._nperturb % 3 else mx
+            nb.set_num_threads(k)
+            self.counters['evaluations_entered_with_perturbed_thread_count'] = self.counters.get('evaluations_entered_with_perturbed_thread_count', 0) + int(k != mx)
+        except Exception:
+            pass
 
     def nt(self, key):
         self.nontrivial.add(key if isinstance(key, (str, int, tuple)) else repr(key))
